@@ -711,6 +711,10 @@ func (e *env) expected(tgt int64) map[string]map[viewKey]*viewVal {
 				fam := tc.CalcFamily(ts, segT)
 				famStart := tc.CalcFamilyStartTime(segT, fam)
 				slot := tc.CalcSlot(ts, famStart, tgt)
+				// "falls inside that target slot": the slot's time window, counted from the family start
+				if w := famStart + int64(slot)*tgt; !(w <= ts && ts < w+tgt && famStart <= ts && ts <= tc.CalcFamilyEndTime(famStart)) {
+					e.c.Fail("slot-window", fmt.Sprintf("interval %d: timestamp %d gets family start %d slot %d, whose window [%d,%d) does not contain it", tgt, ts, famStart, slot, w, w+tgt))
+				}
 				g := fmt.Sprintf("%d/%d", segT, fam)
 				if out[g] == nil {
 					out[g] = map[viewKey]*viewVal{}
@@ -1055,7 +1059,7 @@ func (e *env) storeCase() error {
 	flushed := false
 	for i := 0; i < nops; i++ {
 		h := e.hours[rng.Intn(len(e.hours))]
-		switch k := rng.Intn(10); {
+		switch k := rng.Intn(12); {
 		case k < 4 || !flushed:
 			fd := e.genFile(h)
 			if rng.Intn(12) == 0 {
@@ -1066,10 +1070,13 @@ func (e *env) storeCase() error {
 				return err
 			}
 			flushed = true
-		case k < 7:
+		case k < 9:
 			cut := -1
-			if rng.Intn(2) == 0 {
-				cut = rng.Intn(5)
+			if rng.Intn(3) != 0 {
+				cut = rng.Intn(4)
+				if len(e.tgts) > 1 {
+					cut = rng.Intn(6)
+				}
 			}
 			via := len(e.hours) == 1 && cut < 0 && rng.Intn(2) == 0
 			if via {
@@ -1084,7 +1091,7 @@ func (e *env) storeCase() error {
 					return err
 				}
 			}
-		case k < 8:
+		case k < 10:
 			c.Branch("reopen")
 			if err := e.opReopen(); err != nil {
 				return err
@@ -1173,7 +1180,9 @@ func (a area) Run(c *core.Ctx) error {
 		kv.VerifInstallCommitHook(nil)
 		e.destroy()
 		if err != nil {
-			return fmt.Errorf("case %d: %w", i, err)
+			// an error returned by lindb's own operations (flush, open, rollup wait) on a generated
+			// history is a finding about the implementation, not a harness failure
+			c.Fail("impl-error", fmt.Sprintf("case %d: %v", i, err))
 		}
 	}
 	return nil
